@@ -34,6 +34,13 @@ func NewSubscriptionManager(localDevice api.DeviceLocalInterface) *SubscriptionM
 
 // is sent from the client (remote device) to the server (local device)
 func (c *SubscriptionManager) AddSubscription(remoteDevice api.DeviceRemoteInterface, data model.SubscriptionManagementRequestCallType) error {
+	if data.ClientAddress == nil || data.ServerAddress == nil {
+		return errors.New("clientAddress and serverAddress are required")
+	}
+	if data.ServerFeatureType == nil {
+		return errors.New("serverFeatureType is missing but required")
+	}
+
 	serverFeature := c.localDevice.FeatureByAddress(data.ServerAddress)
 	if serverFeature == nil {
 		return fmt.Errorf("server feature '%s' in local device '%s' not found", data.ServerAddress, *c.localDevice.Address())
@@ -44,7 +51,7 @@ func (c *SubscriptionManager) AddSubscription(remoteDevice api.DeviceRemoteInter
 
 	clientFeature := remoteDevice.FeatureByAddress(data.ClientAddress)
 	if clientFeature == nil {
-		return fmt.Errorf("client feature '%s' in remote device '%s' not found", data.ClientAddress, *remoteDevice.Address())
+		return fmt.Errorf("client feature '%s' in remote device '%s' not found", data.ClientAddress, deviceAddressString(remoteDevice.Address()))
 	}
 	if err := c.checkRoleAndType(clientFeature, model.RoleTypeClient, *data.ServerFeatureType); err != nil {
 		return err
@@ -92,6 +99,10 @@ func (c *SubscriptionManager) RemoveSubscription(data model.SubscriptionManageme
 	// b. The absence of "subscriptionDelete. serverAddress. device" SHALL be treated as if it was
 	//    present and set to the recipient's "device" address part.
 
+	if data.ClientAddress == nil || data.ServerAddress == nil {
+		return errors.New("clientAddress and serverAddress are required")
+	}
+
 	var clientAddress model.FeatureAddressType
 	util.DeepCopy(data.ClientAddress, &clientAddress)
 	if data.ClientAddress.Device == nil {
@@ -100,7 +111,7 @@ func (c *SubscriptionManager) RemoveSubscription(data model.SubscriptionManageme
 
 	clientFeature := remoteDevice.FeatureByAddress(data.ClientAddress)
 	if clientFeature == nil {
-		return fmt.Errorf("client feature '%s' in remote device '%s' not found", data.ClientAddress, *remoteDevice.Address())
+		return fmt.Errorf("client feature '%s' in remote device '%s' not found", data.ClientAddress, deviceAddressString(remoteDevice.Address()))
 	}
 
 	serverFeature := c.localDevice.FeatureByAddress(data.ServerAddress)
